@@ -1,3 +1,12 @@
+(* C05 - the safety invariant of MutexModel, Owicki-Gries style:
+     ainv s a   assertion attached to the control point of actor a (who is counted in `cnt` (ghost ent),
+                who owns the lock (ghost holder), what is known about the blocker it handles)
+     binv s b   assertion of blocker b: token/flag/release implications, and the key clause
+                "flagged + owner still waiting (or gone with release set)  ->  the lock is in transit to b"
+     ginv s     cnt = |ent|, ent duplicate free, queue entries allocated, owner implies cnt >= 1, payload = #writes
+   plus the tactics shared by all preservation proofs (step_cases, upd_tac, brk, fin, a_facts, b_facts).
+   Preservation: MutexPresG (ginv), MutexPresA (stepping actor), MutexPresO (interference), MutexPresB (blockers);
+   assembled in MutexME. *)
 From Coq Require Import List Arith Bool Lia.
 Import ListNotations.
 Require Import MayV.Sync.MutexModel.
